@@ -448,6 +448,9 @@ func check(prop, tier string) int {
 				// worker processes are recycled every `chunk` runs: goroutines left blocked by
 				// killed simulated processes are never freed and slow an ageing process down
 				chunk := 120
+				if job.Kind == "sweep" {
+					chunk = 8 // a swept history is hundreds of runs (one per crash point)
+				}
 				for from := uint64(w); time.Now().Before(deadline); from += uint64(chunk * nw) {
 					outFile := filepath.Join(scratch, fmt.Sprintf("out-%d-%d.jsonl", ji, w))
 					os.Remove(outFile)
